@@ -1,7 +1,8 @@
 /-
   Spec/C12.lean — what property C12 promises, written from the property statement and from
   the kernel's layout of `/proc/<pid>/cmdline`, `/proc/<pid>/environ` and the `exe`/`cwd`
-  links (proc(5)), on BYTES, without looking at psutil's algorithm. Import-free.
+  links (proc(5)), on BYTES. It imports Model/C12 for the TYPES only (`World`, `Err`, `Exc`, `Res`, `FsEnt`,
+  `FileSt`, `LinkSt`, `Dict`, `Call`, `Out`); no function of the model is used here.
 
   Kernel side (renderers):
     * cmdline = every argument followed by one NUL (`renderArgv`); a process that rewrote
@@ -9,9 +10,37 @@
     * environ = every `NAME=value` string followed by one NUL (`renderEnv`);
     * exe/cwd = a path, possibly followed by NUL garbage, possibly with ` (deleted)` appended.
 
-  `none` as a result means: the property is silent about this situation (ENOENT on the
-  cmdline/environ file of a LIVE process whose `/proc/<pid>` still exists; an existence test
-  that is itself denied); such cases are compared against the model only.
+  WHERE THE RULES COME FROM. Two layers, kept apart on purpose:
+    1. the BYTE rules (`fields`, `args`, `envEntries`, `parseEntry`, `assignments`, `environOf`, `stripDeleted`,
+       `linkClean`, `base`, `nameRule`) are the statement's; they are characterised independently of the code
+       (`IsFields` uniqueness, the kernel-layout round-trips, `lastValue`). Four details are NOT fixed by the
+       statement and were chosen to agree with the code (code-derived, listed in the MANIFEST assumptions):
+       only ONE trailing space of a NUL-less title is ignored; a cmdline file whose last byte is not NUL keeps
+       its NULs inside the returned strings; an unterminated last environ entry is dropped (the kernel's
+       `renderEnv` always terminates entries, so this only concerns blocks cut by the kernel); an entry with an
+       empty NAME (`=x`) is not an assignment.
+    2. the EXCEPTION vocabulary (`fileErr`, the error arms of `link`, `exeOnce`, `name`) is psutil's documented
+       one (EACCES = AccessDenied, ESRCH = the process is gone, a withheld file of a zombie = ZombieProcess, …).
+       The statement itself only fixes a few of these arms (zombie's empty cmdline, `''` for a withheld link of a
+       live process, fallback + caching of exe()); the others are a second, declarative transcription of what
+       the front end documents in its comments. The theorems that compare model and spec on those arms are
+       therefore CHARACTERISATIONS of the code; the branch-free invariants `C12_exe_result_invariant`,
+       `C12_exe_remembers_only_what_it_returned`, `C12_exe_denied_never_remembered`,
+       `C12_zombie_never_empty_string` in Props/C12.lean are stated without them.
+
+  NUL-PADDED TITLES. A title followed by two or more NULs (nginx / sshd / postgres) is, byte for byte, the
+  kernel layout of the argument vector `title, "", "", …` (`C12_padded_title_is_an_argv`), so the statement's
+  FIRST rule applies ("NUL-separated with empty arguments preserved") and the title comes back unsplit followed
+  by empty strings. The statement's second rule ("split on spaces when the process overwrote its title without
+  NUL separators") is read as: no NUL separators in the file, i.e. a single piece. That reading is a
+  characterisation of the code (integrator decision, round 3), not a consequence of the statement's words.
+
+  `none` as a result means: the property is silent about this situation. The silent region is delimited
+  exactly by `C12_silent_region` (Props/C12.lean): ENOENT on the cmdline/environ file of a LIVE process whose
+  `/proc/<pid>/stat` still exists (and therefore name() of a ≥ 15-byte name and an exe() that has to guess, in
+  such a world); an existence test of the ` (deleted)` path that is itself denied; a withheld link while `stat`
+  is missing or unreadable (we cannot tell whether the process is live). Such cases are compared against the
+  model only.
 -/
 import PsutilModel.Model.C12
 namespace Psutil.C12.Spec
@@ -53,19 +82,26 @@ def cmdlineOf (zombie : Bool) (data : Bytes) : Res (List Bytes) :=
   if data = [] then (if zombie then .error .zombieProcess else .ok [])
   else .ok (args data)
 
+/-- the process is KNOWN to be a zombie: its `stat` entry is there, can be read, and says `Z`
+    (only used for worlds whose `/proc/<pid>` exists) -/
+def zombie (w : World) : Bool := w.statExists && w.statReadable && w.zombie
+
 /-- an OS error when opening `/proc/<pid>/cmdline` or `…/environ` while `/proc/<pid>` exists, in
     psutil's documented vocabulary: EACCES = AccessDenied; ESRCH ("no such process") = the
     process died under our feet: NoSuchProcess, ZombieProcess if its entry says `Z`; ENOENT on
-    a zombie = ZombieProcess. ENOENT on a single file of a live process: the property is silent. -/
+    a zombie = ZombieProcess; ENOENT when `/proc/<pid>/stat` is gone as well = the process is going away,
+    only its directory lingers: NoSuchProcess (psutil #2418). ENOENT on a single file of a live process whose
+    `stat` is still there: the property is silent. -/
 def fileErr (w : World) : Err → Option Exc
   | .eacces => some .accessDenied
-  | .esrch => some (if w.zombie then .zombieProcess else .noSuchProcess)
-  | .enoent => if w.zombie then some .zombieProcess else none
+  | .esrch => some (if zombie w then .zombieProcess else .noSuchProcess)
+  | .enoent => if zombie w then some .zombieProcess
+               else if !w.statExists then some .noSuchProcess else none
 
 def cmdline (w : World) : Option (Res (List Bytes)) :=
   if !w.dirExists then some (.error .noSuchProcess)
   else match w.cmdline with
-    | .data d => some (cmdlineOf w.zombie d)
+    | .data d => some (cmdlineOf (zombie w) d)
     | .err e => (fileErr w e).map .error
 
 /-! ### what the kernel exposes after the process rewrote its title (proc(5); `get_mm_cmdline`) -/
@@ -150,7 +186,9 @@ def link (w : World) (l : LinkSt) : Option (Res Bytes) :=
     | .target t => (linkClean w.fs t).map .ok
     | .err .eacces => some (.error .accessDenied)
     | .err _ =>                   -- the kernel withholds the link (ENOENT / ESRCH)
-      some (if w.zombie then .error .zombieProcess else .ok [])
+      if zombie w then some (.error .zombieProcess)
+      else if w.statExists && w.statReadable then some (.ok [])     -- a live process
+      else none                   -- `stat` gone / unreadable: live or not, we cannot tell — silent
 
 def cwd (w : World) : Option (Res Bytes) := link w w.cwd
 
@@ -233,7 +271,8 @@ def nameRule (comm : Bytes) (argv0 : Option Bytes) : Bytes :=
   | none => comm
 
 def name (w : World) : Option (Res Bytes) :=
-  if !w.dirExists then some (.error .noSuchProcess)
+  if !w.dirExists || !w.statExists then some (.error .noSuchProcess)   -- no `stat`: the process is gone
+  else if !w.statReadable then some (.error .accessDenied)
   else if w.comm.length < commMax then some (.ok w.comm)
   else match cmdline w with
     | some (.ok argv) => some (.ok (nameRule w.comm argv.head?))
@@ -253,7 +292,8 @@ def username (w : World) : Option (Res Bytes) :=
 
 /-- the terminal device whose number is `tty_nr`, `None` if there is none — zombie or not -/
 def terminal (w : World) : Option (Res (Option Bytes)) :=
-  if !w.dirExists then some (.error .noSuchProcess)
+  if !w.dirExists || !w.statExists then some (.error .noSuchProcess)
+  else if !w.statReadable then some (.error .accessDenied)
   else some (.ok (w.ttys w.tty))
 
 /-! ### one call, given the worlds of the earlier `exe()` calls on the same object -/
